@@ -372,6 +372,44 @@ theorem loop_reclaimed_capacity (e : UpStore) (he : SInv e) (p : Nat → Bool) (
     rw [hrs] at this
     exact this
 
+/-! ## 3b. the passes of the loop ARE the passes of C18's model (commuting lemmas): C18's theorems lifted
+
+`toReclaim N shardOf` maps the loop's limiter server onto a state of `KG.Model.Reclaim` (names given by `N`; a record
+becomes the instance's condition, labelled or not; the `.state` condition carries limit and recorded sum).
+`toReclaim_heartbeat`, `toReclaim_cleanupTimeout`, `toReclaim_cleanupUnknown` (in `KG.Lemmas.LimiterLoop`) say the
+loop's ops commute with C18's. -/
+
+/-- in every reachable state every recorded upstream is in the lister (what the unknown pass needs to leave upstreams alone) -/
+theorem loop_listed (shardOf : Nat → Nat) (nShards nGw : Nat) (k8s : Bool) (ops : List Op) :
+    ∀ p ∈ (reach shardOf nShards nGw k8s ops).srv.ups, ∃ t, aget (reach shardOf nShards nGw k8s ops).srv.listed p.1 = some t :=
+  (ls_run shardOf ops (init nShards nGw k8s) ⟨by simp [init], by simp [init]⟩).ups
+
+/-- C18's `c18_timeout_pass_reclaims` and `c18_live_safe_timeout_pass` hold of the loop's time-out pass, in ANY state -/
+theorem loop_c18_timeout_pass (N : Naming) (shardOf : Nat → Nat) (hsh : ∀ u, N.shardOf' (N.un u) = shardOf u)
+    (s : Server) (now : Nat) :
+    KG.Spec.Reclaim.ReclaimTimeout N.shardOf' now (toReclaim N shardOf s)
+      (toReclaim N shardOf (s.cleanupTimeout shardOf now)) ∧
+    KG.Spec.Reclaim.LiveSafeTimeout now (toReclaim N shardOf s) (toReclaim N shardOf (s.cleanupTimeout shardOf now)) := by
+  rw [toReclaim_cleanupTimeout N shardOf hsh]
+  exact ⟨KG.Props.C18.c18_timeout_pass_reclaims N.shardOf' _ now, KG.Props.C18.c18_live_safe_timeout_pass N.shardOf' _ now⟩
+
+/-- C18's `c18_unknown_pass_reclaims` and `c18_live_safe_unknown_pass` hold of the loop's unknown pass in every
+    reachable state -/
+theorem loop_c18_unknown_pass (N : Naming) (shardOf : Nat → Nat) (hsh : ∀ u, N.shardOf' (N.un u) = shardOf u)
+    (nShards nGw : Nat) (k8s : Bool) (ops : List Op) :
+    KG.Spec.Reclaim.ReclaimUnknown N.shardOf' (toReclaim N shardOf (reach shardOf nShards nGw k8s ops).srv)
+      (toReclaim N shardOf ((reach shardOf nShards nGw k8s ops).srv.cleanupUnknown shardOf)) ∧
+    KG.Spec.Reclaim.LiveSafeUnknown (toReclaim N shardOf (reach shardOf nShards nGw k8s ops).srv)
+      (toReclaim N shardOf ((reach shardOf nShards nGw k8s ops).srv.cleanupUnknown shardOf)) := by
+  rw [toReclaim_cleanupUnknown N shardOf hsh _ (loop_listed shardOf nShards nGw k8s ops)]
+  exact ⟨KG.Props.C18.c18_unknown_pass_reclaims N.shardOf' _, KG.Props.C18.c18_live_safe_unknown_pass N.shardOf' _⟩
+
+/-- C18's `c18_heartbeat_recorded` holds of the loop's heartbeat -/
+theorem loop_c18_heartbeat (N : Naming) (shardOf : Nat → Nat) (s : Server) (i t : Nat) :
+    KG.Spec.Reclaim.HeartbeatRecorded (N.iname i) t (toReclaim N shardOf s) (toReclaim N shardOf (s.heartbeat i t)) := by
+  rw [toReclaim_heartbeat]
+  exact KG.Props.C18.c18_heartbeat_recorded _ _ _
+
 /-! ## 4. frame lemmas between the areas -/
 
 /-- ops of the gateway area (schema sync, partition, crash, return) leave the limiter server untouched -/
@@ -571,6 +609,21 @@ example : (liveObs exS2 0).map (holdsRecord [(0, 64)]) = [true, false] := by dec
 example : (reach exShard 1 2 false (exOps ++ [.report 1 0 24 1 24 100, .net 1 false, .hb 0 3500, .hb 1 3500])).srv.hb
     = [(1, 0), (0, 3500)] := by decide +kernel
 example : timedOut 3600 (1, 0) = true ∧ timedOut 3600 (0, 3500) = false := by decide
+
+/-- a naming exists for every shard function (upstream `u` = `u+1` letters `u`, instance `i` = `i+1` letters `g`): the
+    hypotheses of the lifted C18 theorems are satisfiable -/
+def exNaming (shardOf : Nat → Nat) : Naming where
+  un u := List.replicate (u + 1) 117
+  iname i := List.replicate (i + 1) 103
+  sname := [115]
+  shardOf' n := shardOf (n.length - 1)
+  iname_inj a b h := by
+    have := congrArg List.length h
+    simp at this; exact this
+  iname_ne a := by simp
+
+example (shardOf : Nat → Nat) : ∀ u, (exNaming shardOf).shardOf' ((exNaming shardOf).un u) = shardOf u := by
+  intro u; simp [exNaming]
 
 /-! the judge is not trivially true: it rejects an over-committed record, gateways that together exceed the limit, a
     remote limiter handed out while unreachable, a limiter above the answered quota or above the gateway's own view, a
